@@ -48,6 +48,26 @@ Definition set_jac (f : R -> R -> R -> R * R * R) (c : cache P) : cache P :=
            (xiValues c) (pzValues c) (ppValues c)
            (map (comp1 f) (chiValues c)) (map (comp2 f) (rzValues c)) (map (comp3 f) (rpValues c)).
 
+(** self.<array> = <list> for the six cached arrays *)
+Definition set_xiValues (l : list R) (c : cache P) : cache P :=
+  mk_cache (params c) (chiValues c) (rzValues c) (rpValues c)
+           l (pzValues c) (ppValues c) (dxidchi c) (dpzdrz c) (dppdrp c).
+Definition set_pzValues (l : list R) (c : cache P) : cache P :=
+  mk_cache (params c) (chiValues c) (rzValues c) (rpValues c)
+           (xiValues c) l (ppValues c) (dxidchi c) (dpzdrz c) (dppdrp c).
+Definition set_ppValues (l : list R) (c : cache P) : cache P :=
+  mk_cache (params c) (chiValues c) (rzValues c) (rpValues c)
+           (xiValues c) (pzValues c) l (dxidchi c) (dpzdrz c) (dppdrp c).
+Definition set_dxidchi (l : list R) (c : cache P) : cache P :=
+  mk_cache (params c) (chiValues c) (rzValues c) (rpValues c)
+           (xiValues c) (pzValues c) (ppValues c) l (dpzdrz c) (dppdrp c).
+Definition set_dpzdrz (l : list R) (c : cache P) : cache P :=
+  mk_cache (params c) (chiValues c) (rzValues c) (rpValues c)
+           (xiValues c) (pzValues c) (ppValues c) (dxidchi c) l (dppdrp c).
+Definition set_dppdrp (l : list R) (c : cache P) : cache P :=
+  mk_cache (params c) (chiValues c) (rzValues c) (rpValues c)
+           (xiValues c) (pzValues c) (ppValues c) (dxidchi c) (dpzdrz c) l.
+
 (** the cache a grid with parameters [p] and compact arrays of [c] must hold *)
 Definition recache (dec jac : P -> R -> R -> R -> R * R * R) (p : P) (c : cache P) : cache P :=
   set_jac (jac p) (set_phys (dec p) (upd_params (fun _ => p) c)).
